@@ -319,7 +319,8 @@ theorem clean_viIterate : Clean (viIterate v a) := by
 theorem clean_viAssign : Clean (viAssign v a) := by
   unfold viAssign; clean_auto hv
 
-theorem clean_recursionRounds (idx : Nat) : ∀ (n : Nat) (it : Ty), Clean (recursionRounds v a idx n it)
+theorem clean_recursionRounds (te : TraitEnv) (idx : Nat) :
+    ∀ (n : Nat) (it : Ty), Clean (recursionRounds te v a idx n it)
   | 0, _ => clean_pure _
   | n+1, it => by
     unfold recursionRounds
@@ -329,7 +330,9 @@ theorem clean_recursionRounds (idx : Nat) : ∀ (n : Nat) (it : Ty), Clean (recu
     apply clean_bind (clean_expectTy _ _); intro nt
     split
     · exact clean_pure _
-    · exact clean_recursionRounds idx n nt
+    · split
+      · exact clean_pure _
+      · exact clean_recursionRounds te idx n _
 
 theorem clean_viRecursion (Γ : Ctx) : Clean (viRecursion Γ v a) := by
   unfold viRecursion
@@ -342,11 +345,13 @@ theorem clean_viRecursion (Γ : Ctx) : Clean (viRecursion Γ v a) := by
   · exact clean_stuck _
   · clean_auto hv
   · apply clean_bind (clean_expectTy _ _); intro it0
-    apply clean_bind
-    · exact clean_modify _ (fun _ => rfl)
-    intro _
-    apply clean_bind (clean_recursionRounds hv a _ _ _); intro it
-    clean_auto hv
+    split
+    · clean_auto hv
+    · apply clean_bind
+      · exact clean_modify _ (fun _ => rfl)
+      intro _
+      apply clean_bind (clean_recursionRounds hv a _ _ _ _); intro it
+      clean_auto hv
 
 theorem clean_deboolAll (eid : Nat) : ∀ (n i : Nat), Clean (deboolAll v a eid n i)
   | 0, _ => clean_pure _
